@@ -482,12 +482,12 @@ func (r *Remote) fetch(ctx context.Context, o *FetchOptions) (sto storer.Referen
 		return nil, err
 	}
 
-	var shallows []plumbing.Hash
-	if o.Depth != 0 {
-		shallows, err = r.s.Shallow()
-		if err != nil {
-			return nil, err
-		}
+	// The shallow boundary matters for every fetch from a shallow repository, not
+	// only for depth requests: the server must not assume the ancestors of a
+	// shallow commit are present.
+	shallows, err := r.s.Shallow()
+	if err != nil {
+		return nil, err
 	}
 
 	isWildcard := true
